@@ -85,7 +85,12 @@ uint StatCoder::decodeString(ChunkScan *c) {
   if (c->advanced != 0) {
     // Checking if a full string is encoded in these advanced chars
     c->str[prevLen + c->advanced] = 0;
-    nextLen = strlen((char *)(c->str + prevLen));
+    // The VByte of the shared-prefix length can hold zero bytes (multiples of
+    // 128): the terminator is searched after it
+    nextLen = 0;
+    while ((nextLen < c->advanced) && !(c->str[prevLen + nextLen] & 0x80))
+      nextLen++;
+    nextLen += strlen((char *)(c->str + prevLen + nextLen));
 
     if ((nextLen < c->advanced) && (nextLen > 0)) {
       uint read = prevLen + VByte::decode(&(c->strLen), c->str + prevLen);
